@@ -348,7 +348,7 @@ inline void Exec::new_add_unknown(int ki, int ni) {
     vm::C gamma = cs::rnd_disk(c, 0.5L, 1.0L);
     bool dbl = sc.P >= 2 && c.chance(1, 3);
     cs::Standard st;
-    if (dbl) { int q = (port + 1 + (int)c.draw(sc.P - 1)) % sc.P; st = g.dbl(port, q, gamma, cs::rnd_disk(c, 0, 1.0L), true); }
+    if (dbl) { int q = (port + 1 + (int)c.draw(sc.P - 1)) % sc.P; st = g.dbl(port, q, gamma, cs::rnd_disk(c, 0, 1.0L), true, 0); }
     else { st = g.single(port, gamma, true); st.entry = cs::Standard::SINGLE; }
     // cell 0 becomes the unknown: guess = truth * (1 + delta)
     st.cells[0].kind = cs::SCell::SCALAR; st.cells[0].v.assign(sc.F, gamma);
